@@ -88,6 +88,65 @@ def o_rawcopy_build(src, value):
     return None
 
 
+def find_raws(v, out):
+    """every RawCopy result in a value, outermost first, in member order"""
+    if isinstance(v, dict):
+        if all(k in v for k in ('data', 'value', 'offset1', 'offset2', 'length')):
+            out.append(v)
+            find_raws(v['value'], out)
+            return out
+        for k in v:
+            if not str(k).startswith('_'):
+                find_raws(v[k], out)
+    elif isinstance(v, list):
+        for x in v:
+            find_raws(x, out)
+    return out
+
+
+@C.oracle('rawcopy_build_at')
+def o_rawcopy_build_at(src, obj, start):
+    """building at a non-zero stream offset, RawCopy nested in RawCopy: what build reports is what it wrote, where it wrote it,
+    and what parsing the written bytes reports"""
+    c = C.get(src)
+    st = io.BytesIO()
+    st.write(b'\xee' * start)
+    ctx = construct.Container()
+    ctx._parsing, ctx._building, ctx._sizing, ctx._params = False, True, False, ctx
+    try:
+        r = c._build(obj, st, ctx, '(building)')
+    except core.ConstructError as e:
+        return 'build raised %s' % type(e).__name__
+    out = st.getvalue()
+    built = find_raws(r, [])
+    if not built:
+        return 'no RawCopy result in what build returned'
+    for b in built:
+        if b['data'] != out[b['offset1']:b['offset2']] or b['length'] != b['offset2'] - b['offset1']:
+            return 'build reports data %r at %d..%d, the stream holds %r there' % (b['data'], b['offset1'], b['offset2'], out[b['offset1']:b['offset2']])
+    st.seek(start)
+    p = find_raws(c.parse_stream(st), [])
+    got = [(x['offset1'], x['offset2'], x['data']) for x in built]
+    want = [(x['offset1'], x['offset2'], x['data']) for x in p]
+    if got != want:
+        return 'build reports %r, parsing the bytes it wrote reports %r' % (got, want)
+    if c.build(obj) != out[start:]:
+        return 'build() gives %r, building into a stream at offset %d gives %r' % (c.build(obj), start, out[start:])
+    return None
+
+
+BUILD_AT = [
+    ('Struct("pre"/Bytes(2), "r"/RawCopy(Struct("a"/Byte, "n"/RawCopy(Int16ub), "t"/Tell)), "post"/Byte)',
+     dict(pre=b'ab', r=dict(value=dict(a=1, n=dict(value=513))), post=7)),
+    ('Sequence(Byte, RawCopy(Sequence(Byte, RawCopy(Bytes(2)))))', [5, dict(value=[6, dict(value=b'xy')])]),
+    ('RawCopy(RawCopy(RawCopy(Byte)))', dict(value=dict(value=dict(value=9)))),
+    ('Struct("h"/Byte, "r"/RawCopy(Struct("n"/RawCopy(Byte), "m"/RawCopy(VarInt), "k"/RawCopy(PascalString(Byte, "ascii")))))',
+     dict(h=1, r=dict(value=dict(n=dict(value=3), m=dict(value=300), k=dict(value='hey'))))),
+    ('Struct("a"/Array(2, RawCopy(Struct("x"/Byte, "y"/RawCopy(Byte)))))', dict(a=[dict(value=dict(x=1, y=dict(value=2))), dict(value=dict(x=3, y=dict(value=4)))])),
+    ('Struct("r"/RawCopy(Struct("p"/Padded(3, RawCopy(Byte)), "q"/Aligned(2, RawCopy(Byte)))))', dict(r=dict(value=dict(p=dict(value=1), q=dict(value=2))))),
+]
+
+
 def crc32(d):
     return zlib.crc32(d) & 0xffffffff
 
@@ -193,7 +252,12 @@ def run(tier, seed):
                         dd = b'\xee' * start + d
                         cases.append(dict(src=src, op='parse', data=dd, start=start))
                         checks.append(('rawcopy', src, dict(inner=inner, data=dd, start=start)))
-    fixed_bodies = [('Bytes(3)', lambda g: G.rand_bytes(g, 3), True), ('Int16ub', lambda g: g.randint(0, 65535), True),
+    for src, obj in BUILD_AT:
+        for start in (0, 1, 5):
+            checks.append(('rawcopy_build_at', src, dict(obj=obj, start=start)))
+        cases.append(dict(src=src, op='build', obj=obj))
+    fixed_bodies = [('Bytes(0)', lambda g: b'', True), ('Array(0, Byte)', lambda g: [], True), ('Pass', lambda g: None, True),
+                    ('Bytes(3)', lambda g: G.rand_bytes(g, 3), True), ('Int16ub', lambda g: g.randint(0, 65535), True),
                     ('Struct("a"/Byte, "b"/Int16ul)', lambda g: dict(a=g.randint(0, 255), b=g.randint(0, 65535)), True),
                     ('Array(2, Bytes(2))', lambda g: [G.rand_bytes(g, 2), G.rand_bytes(g, 2)], True),
                     ('PascalString(Byte, "ascii")', lambda g: g.choice(['a', 'hello']), False),
@@ -223,7 +287,8 @@ def run(tier, seed):
     return acc.result(
         rule='RawCopy around 14 inner constructs (fixed, variable, nested, RawCopy in RawCopy) at top level and inside Struct / Prefixed / '
              'FixedSized / nested Prefixed / NullTerminated / ProcessXor / OffsettedEnd, at stream offsets 0 and 2; build from value vs data; '
-             'Checksum structs over 7 bodies x sum8/xor8/crc32/md5 digests in Byte/Int32ub/Int32ul/Bytes(16) fields: build-parse, rebuild of the '
+             'nested RawCopy built from value at stream offsets 0/1/5 (reported offsets and data vs the bytes written vs what parsing reports); '
+             'Checksum structs over 10 bodies (three with an EMPTY covered region) x sum8/xor8/crc32/md5 digests in Byte/Int32ub/Int32ul/Bytes(16) fields: build-parse, rebuild of the '
              'parsed container and of a container with a stale digest, and EVERY single-bit corruption of the covered region and digest. '
              'distinct = (shape, outcome)',
         fragment='theorems hold for every inner construct',
